@@ -1,0 +1,185 @@
+//! Observation hooks for the deterministic-simulation harness that lives outside this repository.
+//!
+//! Compiled only with `--cfg renoir_verif`; nothing in here exists in a normal build.
+
+use std::any::{Any, TypeId};
+use std::collections::HashMap;
+use std::sync::{Arc, Mutex, RwLock};
+
+use crate::network::{Coord, NetworkMessage, ReceiverEndpoint};
+use crate::operator::{ExchangeData, StreamElement};
+
+/// (block, host, replica)
+pub type CoordT = (u64, u64, u64);
+
+pub const KIND_ITEM: u8 = 0;
+pub const KIND_TIMESTAMPED: u8 = 1;
+pub const KIND_WATERMARK: u8 = 2;
+pub const KIND_FLUSH_BATCH: u8 = 3;
+pub const KIND_TERMINATE: u8 = 4;
+pub const KIND_FLUSH_AND_RESTART: u8 = 5;
+
+#[derive(Clone, Debug, PartialEq, Eq)]
+pub struct ElemInfo {
+    pub kind: u8,
+    pub ts: i64,
+    /// FNV-1a of the bincode serialization of the whole stream element
+    pub fp: u64,
+}
+
+pub struct LinkEvent<'a> {
+    pub is_send: bool,
+    pub sender: CoordT,
+    pub to: CoordT,
+    pub prev_block: u64,
+    pub elems: &'a [ElemInfo],
+    pub path: &'static str,
+}
+
+#[derive(Clone, Debug, PartialEq, Eq)]
+pub struct BlockSnapshot {
+    pub id: u64,
+    pub only_one: bool,
+    /// sorted (coord, global id)
+    pub replicas: Vec<(CoordT, u64)>,
+}
+
+#[derive(Clone, Debug, PartialEq, Eq)]
+pub struct GraphSnapshot {
+    pub host: u64,
+    pub blocks: Vec<BlockSnapshot>,
+    /// job-graph edges (from block, to block, fragile), sorted
+    pub block_edges: Vec<(u64, u64, bool)>,
+    /// execution-graph edges (from, to, fragile), sorted
+    pub edges: Vec<(CoordT, CoordT, bool)>,
+    /// demultiplexer addresses ((block, host, prev block), address, port), sorted
+    pub addresses: Vec<((u64, u64, u64), String, u16)>,
+}
+
+pub trait Observer: Send + Sync {
+    fn on_link(&self, ev: &LinkEvent<'_>);
+    fn on_graph(&self, g: GraphSnapshot);
+}
+
+static OBSERVER: RwLock<Option<Arc<dyn Observer>>> = RwLock::new(None);
+
+type DescribeFn = fn(&dyn Any) -> Vec<ElemInfo>;
+static DESCRIBERS: Mutex<Option<HashMap<TypeId, DescribeFn>>> = Mutex::new(None);
+
+pub fn set_observer(o: Option<Arc<dyn Observer>>) {
+    *OBSERVER.write().unwrap() = o;
+}
+
+fn observer() -> Option<Arc<dyn Observer>> {
+    OBSERVER.read().unwrap().clone()
+}
+
+pub(crate) fn coord_t(c: Coord) -> CoordT {
+    (c.block_id, c.host_id, c.replica_id)
+}
+
+struct Fnv(u64);
+
+impl std::io::Write for Fnv {
+    fn write(&mut self, buf: &[u8]) -> std::io::Result<usize> {
+        for b in buf {
+            self.0 ^= *b as u64;
+            self.0 = self.0.wrapping_mul(0x0000_0100_0000_01B3);
+        }
+        Ok(buf.len())
+    }
+    fn flush(&mut self) -> std::io::Result<()> {
+        Ok(())
+    }
+}
+
+fn describe<T: ExchangeData>(msg: &dyn Any) -> Vec<ElemInfo> {
+    let msg = msg
+        .downcast_ref::<NetworkMessage<T>>()
+        .expect("verif: describer called with the wrong type");
+    msg.verif_elements()
+        .iter()
+        .map(|e| {
+            let mut h = Fnv(0xcbf2_9ce4_8422_2325);
+            bincode::serialize_into(&mut h, e).expect("verif: cannot serialize element");
+            #[allow(unused_mut)]
+            let mut ts = 0i64;
+            #[cfg(feature = "timestamp")]
+            if let Some(t) = e.timestamp() {
+                ts = *t;
+            }
+            let kind = match e {
+                StreamElement::Item(_) => KIND_ITEM,
+                StreamElement::Timestamped(_, _) => KIND_TIMESTAMPED,
+                StreamElement::Watermark(_) => KIND_WATERMARK,
+                StreamElement::FlushBatch => KIND_FLUSH_BATCH,
+                StreamElement::Terminate => KIND_TERMINATE,
+                StreamElement::FlushAndRestart => KIND_FLUSH_AND_RESTART,
+            };
+            ElemInfo { kind, ts, fp: h.0 }
+        })
+        .collect()
+}
+
+pub(crate) fn on_send<T: ExchangeData>(ep: &ReceiverEndpoint, msg: &NetworkMessage<T>) {
+    let Some(obs) = observer() else { return };
+    DESCRIBERS
+        .lock()
+        .unwrap()
+        .get_or_insert_with(HashMap::new)
+        .entry(TypeId::of::<T>())
+        .or_insert(describe::<T> as DescribeFn);
+    let elems = describe::<T>(msg as &dyn Any);
+    obs.on_link(&LinkEvent {
+        is_send: true,
+        sender: coord_t(msg.sender()),
+        to: coord_t(ep.coord),
+        prev_block: ep.prev_block_id,
+        elems: &elems,
+        path: "send",
+    });
+}
+
+pub(crate) fn on_recv<T: Send + 'static>(
+    ep: &ReceiverEndpoint,
+    msg: &NetworkMessage<T>,
+    path: &'static str,
+) {
+    let Some(obs) = observer() else { return };
+    let f = DESCRIBERS
+        .lock()
+        .unwrap()
+        .as_ref()
+        .and_then(|m| m.get(&TypeId::of::<T>()).copied());
+    let (elems, path) = match f {
+        Some(f) => (f(msg as &dyn Any), path),
+        None => (Vec::new(), "recv-of-a-type-never-sent"),
+    };
+    obs.on_link(&LinkEvent {
+        is_send: false,
+        sender: coord_t(msg.sender()),
+        to: coord_t(ep.coord),
+        prev_block: ep.prev_block_id,
+        elems: &elems,
+        path,
+    });
+}
+
+pub(crate) fn on_graph(g: GraphSnapshot) {
+    if let Some(obs) = observer() {
+        obs.on_graph(g);
+    }
+}
+
+/// The order in which a producer serves its downstream blocks comes from a `RandomState` hash map;
+/// make it canonical, then let the simulator's schedule tape pick a permutation.
+pub(crate) fn order_block_senders(v: &mut [crate::operator::end::BlockSenders]) {
+    v.sort_by_key(|b| b.indexes.first().copied().unwrap_or(usize::MAX));
+    if v.len() > 1 && simrt::rt::rate(simrt::Fk::SenderOrder) > 0 {
+        simrt::rt::fired(simrt::Fk::SenderOrder);
+        for i in (1..v.len()).rev() {
+            let j = simrt::rt::sched_draw(i as u32 + 1) as usize;
+            v.swap(i, j);
+        }
+    }
+}
